@@ -46,6 +46,7 @@ type GroupCfg struct {
 	Entropy     uint64
 	TickBudget  uint64
 	DepthBudget int
+	FrameBudget uint64 // loop iterations within one function activation
 	ByteBudget  uint64
 	PanicAtTick uint64
 	RecordPerms bool
@@ -72,6 +73,8 @@ type Group struct {
 	Ticks      uint64
 	MaxDepth   int
 	DeepFn     int
+	MaxFrame   uint64 // largest number of loop iterations executed by a single function activation
+	MaxFrameFn int
 	ClockReads int
 	RandDraws  int
 	clockExtra int64
@@ -88,10 +91,13 @@ type Group struct {
 	Events uint64
 
 	heap0     uint64
+	live0     uint64
 	PeakBytes uint64
 
-	aborted bool // a budget was exceeded: further ticks of sibling tasks abort too
-	abort   any
+	aborted   bool // a budget was exceeded: further ticks of sibling tasks abort too
+	abort     any
+	abortTask *Task
+	abortAt   uint64
 }
 
 // Task is one simulated goroutine.
@@ -99,6 +105,7 @@ type Task struct {
 	ID    int
 	G     *Group
 	depth int
+	frames []frame
 	vc    []uint64
 	resume chan struct{}
 	done   bool
@@ -116,6 +123,11 @@ type Task struct {
 
 var cur *Task
 
+type frame struct {
+	fn int
+	n  uint64
+}
+
 // Cur returns the running task (nil outside any simulated run).
 func Cur() *Task { return cur }
 
@@ -123,7 +135,7 @@ func Cur() *Task { return cur }
 // distinguished panics
 
 type BudgetExceeded struct {
-	Kind string // ticks | depth | bytes
+	Kind string // loop | depth | ticks | bytes
 	Fn   string
 }
 
@@ -215,6 +227,7 @@ func NewGroup(id int, cfg GroupCfg) *Group {
 	var ms runtime.MemStats
 	runtime.ReadMemStats(&ms)
 	g.heap0 = ms.TotalAlloc
+	g.live0 = ms.HeapAlloc
 	return g
 }
 
@@ -239,12 +252,13 @@ func Enter(fn int) {
 		return
 	}
 	t.depth++
+	t.frames = append(t.frames, frame{fn: fn})
 	g := t.G
 	if t.depth > g.MaxDepth {
 		g.MaxDepth = t.depth
 		g.DeepFn = fn
 	}
-	if t.depth > g.cfg.DepthBudget && g.cfg.DepthBudget > 0 {
+	if t.depth > g.cfg.DepthBudget && g.cfg.DepthBudget > 0 && !g.aborted {
 		g.fail(BudgetExceeded{Kind: "depth", Fn: fnName(fn)})
 	}
 	g.tick(t, uint64(fn)|1<<40, fn, true)
@@ -253,6 +267,9 @@ func Enter(fn int) {
 func Leave() {
 	if t := cur; t != nil {
 		t.depth--
+		if n := len(t.frames); n > 0 {
+			t.frames = t.frames[:n-1]
+		}
 	}
 }
 
@@ -261,12 +278,26 @@ func Tick(site int) {
 	if t == nil {
 		return
 	}
-	t.G.tick(t, uint64(site)|2<<40, site, false)
+	g := t.G
+	if n := len(t.frames); n > 0 {
+		f := &t.frames[n-1]
+		f.n++
+		if f.n > g.MaxFrame {
+			g.MaxFrame = f.n
+			g.MaxFrameFn = f.fn
+		}
+		if f.n > g.cfg.FrameBudget && g.cfg.FrameBudget > 0 && !g.aborted {
+			g.fail(BudgetExceeded{Kind: "loop", Fn: fnName(f.fn)})
+		}
+	}
+	g.tick(t, uint64(site)|2<<40, site, false)
 }
 
 func (g *Group) fail(v any) {
 	g.aborted = true
 	g.abort = v
+	g.abortTask = cur
+	g.abortAt = g.Ticks
 	panic(v)
 }
 
@@ -274,7 +305,12 @@ func (g *Group) tick(t *Task, code uint64, id int, isFn bool) {
 	g.Ticks++
 	g.trace = (g.trace ^ code) * 0x100000001b3
 	if g.aborted {
-		panic(g.abort)
+		// sibling tasks of the call stop at their next tick; the task that hit the budget is unwinding
+		// and may run deferred functions (they tick too), which are allowed a bounded extra amount
+		if t != g.abortTask || g.Ticks > g.abortAt+1_000_000 {
+			panic(g.abort)
+		}
+		return
 	}
 	if g.Ticks == g.cfg.PanicAtTick {
 		panic(InjectedPanic{Tick: g.Ticks})
@@ -291,10 +327,14 @@ func (g *Group) tick(t *Task, code uint64, id int, isFn bool) {
 	if g.Ticks&0x3fff == 0 && g.cfg.ByteBudget > 0 {
 		var ms runtime.MemStats
 		runtime.ReadMemStats(&ms)
-		if ms.HeapAlloc > g.PeakBytes {
-			g.PeakBytes = ms.HeapAlloc
+		var live uint64 // growth of the live heap since the call started
+		if ms.HeapAlloc > g.live0 {
+			live = ms.HeapAlloc - g.live0
 		}
-		if ms.HeapAlloc > g.cfg.ByteBudget {
+		if live > g.PeakBytes {
+			g.PeakBytes = live
+		}
+		if live > g.cfg.ByteBudget && !g.aborted {
 			name := ""
 			if isFn {
 				name = fnName(id)
